@@ -83,7 +83,7 @@ add("C14", "model_checking",
 
 add("C07", "model_checking",
     "explicit-state BFS over histories (18 events, depth 8 quick / 11 thorough) of the real Machine, deduplicated on the derived Debug of the whole Machine (so implementation-internal state keeps histories apart); at every distinct node each reset and each follow-up load is executed on a clone and compared with power-on values, an untouched twin and a fresh machine (lock-step)",
-    "cpu_reset: registers/IR/sequencer/pending latches/bus latch/ALU latch/outputs/MICR/state = power-on, RAM/inputs/board/limits/step mode untouched, timer survives and UCR is cleared (Bus-value differentials), whole-Machine equality against a machine rebuilt from public setters for clean histories; master_reset: additionally inputs, timer and the board's outputs cleared, RAM and board inputs untouched; load: RAM = image + zeros, limits applied, load == master reset + image + limits as a whole Machine value; 7 follow-up programs (incl. one that enables every interrupt source and a NOSET program) run 300 edges in lock-step with a new machine; the cpu-side whole-machine comparison is made after every history; after the master reset of every history no external stimulus may raise the board's interrupt flags; the resets and the other thin wrappers of Machine equal the calls they wrap on the RawMachine (raw_mut()); 16 histories of 1 500 events.",
+    "cpu_reset: registers/IR/sequencer/pending latches/bus latch/ALU latch/outputs/MICR/state = power-on, RAM/inputs/board/limits/step mode untouched, timer survives and UCR is cleared (Bus-value differentials), whole-Machine equality against a machine rebuilt from public setters for clean histories; master_reset: additionally inputs, timer and the board's outputs cleared, RAM and board inputs untouched; load: RAM = image + zeros, limits applied, load == master reset + image + limits as a whole Machine value; 7 follow-up programs (incl. one that enables every interrupt source and a NOSET program) run 300 edges in lock-step with a new machine; the cpu-side whole-machine comparison is made after every history; after the master reset of every history no external stimulus may raise the board's interrupt flags; the resets and the other thin wrappers of Machine equal the calls they wrap on the RawMachine (raw_mut()); 16 histories of 1 500 events; the board after a master reset answers a probe sequence like a new board with the same inputs; load_raw = master reset + bytes.",
     "Histories bounded by the depth; MISR and the UART send register are outside the statement and not compared.",
     "DESIGN.md 3/C07")
 
@@ -100,7 +100,7 @@ add("C12", "model_checking",
     "DESIGN.md 3/C12")
 
 add("C17", "model_checking",
-    "exploration of the full tree of key sequences (22-key alphabet, depth 4/5, no merging of states) on the real Tui event dispatch; command pairs, triples and history recall; sessions started with a program and every initial setting; file names wider than the interface; sessions of 320 / 1 200 submitted lines; every key with every modifier combination and the unused key codes, 300 times each; exhaustive enumeration of terminal sizes and of a command-line family; every key compared with REF-EDIT / REF-CMD and a twin Machine driven by library calls; panic monitor on every transition and render",
+    "exploration of the full tree of key sequences (22-key alphabet, depth 4/5, no merging of states) on the real Tui event dispatch; command pairs, triples and history recall; sessions started with a program and every initial setting; file names wider than the interface; sessions of 320 / 1 200 submitted lines; every key with every modifier combination and the unused key codes, 300 times each; eight scripted sessions of the real binary under a pseudo terminal (the real main loop; smoke test, not exhaustive); exhaustive enumeration of terminal sizes and of a command-line family; every key compared with REF-EDIT / REF-CMD and a twin Machine driven by library calls; panic monitor on every transition and render",
     "No key sequence / size makes handle_event or Interface::render panic; cursor and history index stay in range; editing keys behave as REF-EDIT; a submitted line is rejected with a notification or has exactly the effect of the documented command on the machine (PartialEq against the twin), values above 255 and trailing garbage rejected; control keys act as the library calls of the same name.",
     "Trusted: REF-EDIT / REF-CMD; completion results are adopted (only invariants checked); float spellings other than plain decimals are unspecified; crossterm I/O, raw mode and the real-time pacing of Tui::run are outside the check.",
     "DESIGN.md 3/C17")
